@@ -101,7 +101,7 @@ def gen_history(rng, base):
     ops = []
     n = rng.randrange(1, 7)
     fresh_p = [758, 759, 760, 900, (1 << 30) | 70, (1 << 30) | 71, 6, 7]
-    fresh_id = ['1.19', '1.19.1', '22w01a', '1.19-pre1', '1.20', 'x', '2.0.0', '1.19\n', '1.', '.1', '1..2', '١.٢']
+    fresh_id = ['1.19', '1.19.1', '22w01a', '1.19-pre1', '1.20', 'x', '2.0.0', '26.1', '10.0.2', '100.1', '1.19\n', '1.', '.1', '1..2', '١.٢']
     for _ in range(n):
         k = rng.random()
         if k < 0.55:
